@@ -507,8 +507,18 @@ def r06_5(chk, repo):
     chk.ob("R06.5", MC, q, "the face winding is flipped for gradient_direction == 'descent' only", okf, fingerprint="winding",
            found=[o for _, o in sf_])
     rs = [e for e in ev.events if e.kind == "raise" and "gradient_direction" in e.value.key()]
-    okr = bool(rs) and any(not pol and "'descent'" in c.key() for c, pol in rs[0].guards) and any("'ascent'" in c.key() for c, pol in rs[0].guards)
+    okr = bool(rs) and any(not pol and c.key() == "(eq 'descent' gradient_direction)" for c, pol in rs[0].guards) and \
+        any(not pol and c.key() == "(eq 'ascent' gradient_direction)" for c, pol in rs[0].guards)
     chk.ob("R06.5", MC, q, "any other gradient_direction raises", okr, fingerprint="direction-raise")
+    # faces are triangles; the unit spacing (1, 1, 1), and only that, may skip the scaling
+    shp = [e for e in ev.events if e.kind == "store" and e.target.key().endswith(".shape") and "faces" in e.target.key()]
+    chk.ob("R06.5", MC, q, "the face index array is shaped into triangles (-1, 3)", bool(shp) and all(e.value.key() == "(tuple (-1 3))" for e in shp),
+           fingerprint="triangles", found=[str(e.value) for e in shp])
+    sc = [e for e, o in sv if o.startswith("scale:")]
+    skip = [c for e in sc for c, pol in e.guards if "array_equal" in c.key()]
+    chk.ob("R06.5", MC, q, "the scaling by the spacing is skipped for the unit spacing (1, 1, 1) only", bool(sc) and
+           all(any(c.key() == "numpy.array_equal(spacing, (tuple (1 1 1)))" and not pol for c, pol in e.guards) or not any("array_equal" in c.key() for c, _ in e.guards)
+               for e in sc), fingerprint="unit-spacing", found=[str(c)[:80] for c in skip])
     # surface.py
     sf = repo.module(SF)
     for q2 in ("promolecule_density_isosurface", "stockholder_weight_isosurface"):
@@ -563,6 +573,22 @@ def r06_5(chk, repo):
         mg = [e for e in ev2.events if e.kind == "call" and call_name(e.value.as_atom() or ()) == "numpy.meshgrid"]
         okm = bool(mg) and dict(mg[0].extra["kwargs"]).get("indexing") is None and [a.key()[-7:] for a in mg[0].extra["args"]] and len(mg[0].extra["args"]) == 3
         chk.ob("R06.5", SF, q2, "the field is sampled on a default ('xy') meshgrid of the x, y, z grids", okm, fingerprint=f"{q2}:meshgrid")
+        # ... given in the order x, y, z, unpacked in that order, and the sample points list (x, y, z) columns in that order
+        okorder = bool(mg) and len(mg[0].extra["args"]) == 3 and all(
+            call_name(a.as_atom() or ()) == "numpy.arange" and len(a.as_atom()[2]) >= 2 and a.as_atom()[2][0].key() == f"$l[{k}]" and a.as_atom()[2][1].key() == f"$u[{k}]"
+            for k, a in enumerate(mg[0].extra["args"]))
+        xyz = [ev2.defs.get(("local", nm, 0)) for nm in "xyz"]
+        okunpack = bool(mg) and all(v is not None and v.as_atom() and v.as_atom()[0] == "sub" and v.as_atom()[2] == (P.const(k),)
+                                    and call_name(v.as_atom()[1].as_atom() or ()) == "numpy.meshgrid" for k, v in enumerate(xyz))
+        pv = ev2.defs.get(("local", "pts", 0))
+        okpts = pv is not None and pv.key() in ("numpy.c_[$x.ravel(), $y.ravel(), $z.ravel()]", "numpy.c_[$x.flatten(), $y.flatten(), $z.flatten()]",
+                                                "numpy.column_stack((tuple ($x.ravel() $y.ravel() $z.ravel())))")
+        chk.ob("R06.5", SF, q2, "the meshgrid is given the x, y, z axes in that order, unpacked as x, y, z, and the sample points are the (x, y, z) columns",
+               okorder and okunpack and okpts, fingerprint=f"{q2}:axis-order", found=f"args {okorder} unpack {okunpack} points {str(pv)[:80]}")
+        sm = [e for e in vs if "smooth_laplacian(" in e.value.key()]
+        chk.ob("R06.5", SF, q2, "the mesh is smoothed only when smoothing == 'laplacian' is asked for (the smoothed vertices leave the level set)",
+               all(any(c.key() == "(eq 'laplacian' smoothing)" and pol for c, pol in e.guards) for e in sm), fingerprint=f"{q2}:smoothing",
+               found=[str(e.guards[-1][0]) if e.guards else "unconditional" for e in sm])
         call = [e for e in ev2.events if e.kind == "call" and (call_name(e.value.as_atom() or ()) or "").endswith("marching_cubes")]
         okc = bool(call) and dict(call[0].extra["kwargs"]).get("gradient_direction") is not None and \
             string_value(dict(call[0].extra["kwargs"])["gradient_direction"]) == "descent" and call[0].extra["args"][1].key() == "isovalue"
